@@ -29,7 +29,7 @@ def gen_magnets(ck):
             if i % 41 == 0:
                 kw['dn'] = ''
         if rng.random() < 0.5:
-            kw['xl'] = rng.choice([1, 2, 142631, 10 ** 15])
+            kw['xl'] = rng.choice([1, 2, 142631, 10 ** 15, 2 ** 53 + 1, 10 ** 18 + 7, 2 ** 64 + 3])
         if rng.random() < 0.6:
             kw['tr'] = [rng.choice(URLS) for _ in range(rng.choice([1, 1, 2, 3, 20]))]
         if rng.random() < 0.3:
